@@ -256,7 +256,8 @@ class Check:
     rule = (
         "Hypothesis: hierarchy (2-7 classes, MI, ABCs, protocols) x <=9 methods over plain classes (1-3 positions, "
         "keyword-only, priorities, replaced identical signatures, three host kinds), every method delegating through a "
-        "call_next / f.next / recurse site; scripts of 1-8 delegations (same or other arguments). Every delegation "
+        "call_next / f.next / recurse site (in the documented regime 1 in 4 hands the last positional on by keyword); "
+        "scripts of 1-8 delegations (same or other arguments; the corpus has an instance equal to every object). Every delegation "
         "step is compared with the reference chain. Non-trivial = a chain of >=3 bodies or one ending in the "
         "ambiguity error, over a hierarchy with multiple inheritance or with >=2 arguments; distinct by case hash."
     )
